@@ -66,4 +66,27 @@ def closedForm (shape : List Int) (numel : Int) : Except String (List Int) :=
   else if 0 < others shape ∧ others shape ∣ numel then .ok (shape.set (slot shape) (numel / others shape))
   else .error "AssertionError"
 
+
+-- torch's own rule (spec) -------------------------------------------------------------------------
+
+/-- `at::infer_size` (aten/src/ATen/InferSize.h `infer_size_impl`), the rule behind `Tensor.view/reshape`:
+the same loop over the shape, then: accepted when `numel == newsize` or a placeholder exists, `newsize > 0` and
+`numel % newsize == 0`; with a placeholder `TORCH_CHECK(newsize != 0, "cannot reshape tensor of 0 elements into
+shape … because the unspecified dimension size -1 can be any value and is ambiguous")`; every failure is a
+RuntimeError.  This is *specification* (transcribed from torch, validated on every run against
+`torch.empty(numel).view(shape)` by the stream `infer_size_vs_torch`), not tensordict code. -/
+def torchInfer (shape : List Int) (numel : Int) : Except String (List Int) :=
+  match scan shape 0 (none, 1) with
+  | .error _ => .error "RuntimeError"
+  | .ok st =>
+    if numel = st.2 ∨ (st.1.isSome = true ∧ st.2 > 0 ∧ numel % st.2 = 0) then
+      match st.1 with
+      | none => .ok shape
+      | some d => if st.2 = 0 then .error "RuntimeError" else .ok (shape.set (Int.toNat d) (numel / st.2))
+    else .error "RuntimeError"
+
+/-- a result with the exception text forgotten: `some out` = accepted with shape `out`, `none` = raises -/
+def accepted (r : Except String (List Int)) : Option (List Int) :=
+  match r with | .ok l => some l | .error _ => none
+
 end TdVerif.InferSize
